@@ -27,52 +27,108 @@ PROPS = {
         'assumptions': [],
     },
     'C04': {
-        'modules': [],
+        'modules': ['SE.Props.C04'],
         'streams': [{'component': 'mapper_c04', 'project': _rule_only, 'note_kinds': {'rule'}}],
-        'level': 'translation_validation',
+        'level': 'proof',
         'trusted_base': ["Go regexp (RE2) semantics: match results of regex rules are supplied by the harness from the real regexp package (oracle `rx`)", "yaml.v2 decodes the rendered configuration to the intended fields"],
-        'assumptions': [_TV_NOTE],
+        'assumptions': [],
     },
     'C12': {
-        'modules': [],
+        'modules': ['SE.Props.C12'],
         'streams': [{'component': 'mapper_c12', 'project': _rule_only, 'note_kinds': {'rule'}}],
-        'level': 'translation_validation',
+        'level': 'proof',
         'trusted_base': ["yaml.v2 decodes the rendered configuration to the intended fields"],
-        'assumptions': [_TV_NOTE],
+        'assumptions': [],
     },
     'C11': {
-        'modules': [],
+        'modules': ['SE.Props.C11'],
         'streams': [{'component': 'mapper_c11', 'note_kinds': {'tmpl'}}],
-        'level': 'translation_validation',
+        'level': 'proof',
         'trusted_base': ["fmt.Sprintf is modelled for %s and %% only; results of templates that reach other % sequences are not compared (model answers `?`)", "regexp.Expand template syntax modelled from the Go source", "Go regexp semantics via the rx oracle"],
-        'assumptions': [_TV_NOTE],
+        'assumptions': [],
     },
     'C13': {
-        'modules': [],
+        'modules': ['SE.Props.C13'],
         'streams': [{'component': 'mapper_c13', 'note_kinds': {'fresh'}}],
-        'level': 'translation_validation',
+        'level': 'proof',
         'trusted_base': ["groupcache lru.Cache (third party) modelled from its source", "Go map iteration order of the random-replacement eviction = oracle argument"],
-        'assumptions': [_TV_NOTE],
+        'assumptions': [],
     },
     'C14': {
-        'modules': [],
+        'modules': ['SE.Props.C14'],
         'streams': [{'component': 'mapper_c14', 'note_kinds': {'fresh'}}],
-        'level': 'translation_validation',
+        'level': 'proof',
         'trusted_base': ["sync.RWMutex semantics (GetMapping and the swap are atomic steps)", "yaml.v2"],
-        'assumptions': [_TV_NOTE],
+        'assumptions': [],
     },
     'C09': {
-        'modules': [],
+        'modules': ['SE.Props.C09'],
         'streams': [{'component': 'parse', 'info_comparable': True}],
-        'level': 'translation_validation',
+        'level': 'proof',
         'trusted_base': ["strconv.ParseFloat results are shipped by the harness (oracle `pf`)"],
-        'assumptions': [_TV_NOTE],
+        'assumptions': [],
     },
     'C10': {
-        'modules': [],
+        'modules': ['SE.Props.C10'],
         'streams': [{'component': 'parse', 'seed_off': 1000, 'info_comparable': True}],
-        'level': 'translation_validation',
+        'level': 'proof',
         'trusted_base': ["strconv.ParseFloat results are shipped by the harness (oracle `pf`)"],
+        'assumptions': [],
+    },
+    'C01': {
+        'modules': [],
+        'streams': [{'component': 'pipe_c01', 'note_kinds': set()}],
+        'level': 'translation_validation',
+        'trusted_base': ["client_golang v1.22.0 (vector constructors, child creation and its panics, counter/gauge/histogram/summary updates, Delete, Gather's family checks) and perks' Query fast path are modelled by hand from their sources (SE/Model/Registry.lean)", 'FNV-64 label-hash collisions assumed away', 'IEEE float64 = Lean Float in the driver; strconv.ParseFloat and regexp results shipped by the harness', 'yaml.v2 decodes the rendered configuration to the intended fields'],
+        'assumptions': [_TV_NOTE],
+    },
+    'C02': {
+        'modules': [],
+        'streams': [{'component': 'pipe_c02', 'note_kinds': {'panic', 'mult'}}],
+        'level': 'translation_validation',
+        'trusted_base': ["client_golang v1.22.0 (vector constructors, child creation and its panics, counter/gauge/histogram/summary updates, Delete, Gather's family checks) and perks' Query fast path are modelled by hand from their sources (SE/Model/Registry.lean)", 'FNV-64 label-hash collisions assumed away', 'IEEE float64 = Lean Float in the driver; strconv.ParseFloat and regexp results shipped by the harness', 'yaml.v2 decodes the rendered configuration to the intended fields'],
+        'assumptions': [_TV_NOTE],
+    },
+    'C03': {
+        'modules': [],
+        'streams': [{'component': 'pipe_c03', 'note_kinds': {'gather'}}],
+        'level': 'translation_validation',
+        'trusted_base': ["client_golang v1.22.0 (vector constructors, child creation and its panics, counter/gauge/histogram/summary updates, Delete, Gather's family checks) and perks' Query fast path are modelled by hand from their sources (SE/Model/Registry.lean)", 'FNV-64 label-hash collisions assumed away', 'IEEE float64 = Lean Float in the driver; strconv.ParseFloat and regexp results shipped by the harness', 'yaml.v2 decodes the rendered configuration to the intended fields'],
+        'assumptions': [_TV_NOTE],
+    },
+    'C05': {
+        'modules': [],
+        'streams': [{'component': 'pipe_c05', 'note_kinds': set()}],
+        'level': 'translation_validation',
+        'trusted_base': ["client_golang v1.22.0 (vector constructors, child creation and its panics, counter/gauge/histogram/summary updates, Delete, Gather's family checks) and perks' Query fast path are modelled by hand from their sources (SE/Model/Registry.lean)", 'FNV-64 label-hash collisions assumed away', 'IEEE float64 = Lean Float in the driver; strconv.ParseFloat and regexp results shipped by the harness', 'yaml.v2 decodes the rendered configuration to the intended fields'],
+        'assumptions': [_TV_NOTE],
+    },
+    'C06': {
+        'modules': [],
+        'streams': [{'component': 'pipe_c06', 'note_kinds': {'counter'}}],
+        'level': 'translation_validation',
+        'trusted_base': ["client_golang v1.22.0 (vector constructors, child creation and its panics, counter/gauge/histogram/summary updates, Delete, Gather's family checks) and perks' Query fast path are modelled by hand from their sources (SE/Model/Registry.lean)", 'FNV-64 label-hash collisions assumed away', 'IEEE float64 = Lean Float in the driver; strconv.ParseFloat and regexp results shipped by the harness', 'yaml.v2 decodes the rendered configuration to the intended fields'],
+        'assumptions': [_TV_NOTE],
+    },
+    'C07': {
+        'modules': [],
+        'streams': [{'component': 'pipe_c07', 'note_kinds': set()}],
+        'level': 'translation_validation',
+        'trusted_base': ["client_golang v1.22.0 (vector constructors, child creation and its panics, counter/gauge/histogram/summary updates, Delete, Gather's family checks) and perks' Query fast path are modelled by hand from their sources (SE/Model/Registry.lean)", 'FNV-64 label-hash collisions assumed away', 'IEEE float64 = Lean Float in the driver; strconv.ParseFloat and regexp results shipped by the harness', 'yaml.v2 decodes the rendered configuration to the intended fields'],
+        'assumptions': [_TV_NOTE],
+    },
+    'C08': {
+        'modules': [],
+        'streams': [{'component': 'pipe_c08', 'note_kinds': {'gather'}}],
+        'level': 'translation_validation',
+        'trusted_base': ["client_golang v1.22.0 (vector constructors, child creation and its panics, counter/gauge/histogram/summary updates, Delete, Gather's family checks) and perks' Query fast path are modelled by hand from their sources (SE/Model/Registry.lean)", 'FNV-64 label-hash collisions assumed away', 'IEEE float64 = Lean Float in the driver; strconv.ParseFloat and regexp results shipped by the harness', 'yaml.v2 decodes the rendered configuration to the intended fields'],
+        'assumptions': [_TV_NOTE],
+    },
+    'C19': {
+        'modules': [],
+        'streams': [{'component': 'pipe_c19', 'note_kinds': {'panic', 'gather'}}],
+        'level': 'translation_validation',
+        'trusted_base': ["client_golang v1.22.0 (vector constructors, child creation and its panics, counter/gauge/histogram/summary updates, Delete, Gather's family checks) and perks' Query fast path are modelled by hand from their sources (SE/Model/Registry.lean)", 'FNV-64 label-hash collisions assumed away', 'IEEE float64 = Lean Float in the driver; strconv.ParseFloat and regexp results shipped by the harness', 'yaml.v2 decodes the rendered configuration to the intended fields'],
         'assumptions': [_TV_NOTE],
     },
 }
